@@ -213,6 +213,42 @@ def check(prop, tier, replay=None):
             if len(run.cov["samples"]) < 3 and nontrivial(prop, r):
                 run.sample({"trace": r["id"], "tasks": [{k: t[k] for k in ("name", "effort", "alloc", "deps", "prio")} for t in r["project"]["tasks"]][:6],
                             "events": len(r["events"]), "verdict": v.summary()})
+        if not replay and prop in MC_PLAN:
+            run_universes(run, scr, prop, tier)
         if not replay:
             run_known(run, scr, prop)
     return run.finish()
+
+
+# ----------------------------------------------------------------------------------------------
+# Engine E2: bounded universes of Sched.tla; all properties are invariants of the spec there, and every
+# terminal state is replayed into the real code (spec -> code).  (module, quick cfg, thorough cfg, project length)
+MC_PLAN = {
+    "C07": [("MC_Core", "MC_Core.cfg", "MC_CoreFull.cfg", "+1w")],
+}
+
+
+def run_universes(run, scr, prop, tier):
+    from harness import e2
+    for module, qcfg, tcfg, length in MC_PLAN[prop]:
+        res, terms = e2.run_universe(module, qcfg if tier == "quick" else tcfg, timeout=6000)
+        run.add_tlc(res)
+        if res.invariant_violated:
+            raise MachineryError("the specification violates its own invariant %s on %s (spec defect, not a verdict about the code):\n%s"
+                                 % (res.invariant_violated, module, e2.strip_terminals(res.out)[-1500:]))
+        if not terms:
+            raise MachineryError("%s produced no terminal states" % module)
+        n, mism = e2.replay_terminals(scr, terms, length=length)
+        run.cov["traces_validated_against_impl"] += n
+        run.cov["evaluations"] += n
+        run.notes.setdefault("universes", []).append({"module": module, "projects": n, "states": res.distinct, "disagree": len(mism)})
+        for t in terms:
+            if len([x for x in t["project"]["tasks"] if x["leaf"]]) >= 3:
+                run.nontrivial(phash(t["project"]["tasks"]))
+        for m in mism[:20]:
+            run.violation("%s-u%06d" % (module, m["idx"]), {"id": "%s-u%06d" % (module, m["idx"]), "text": m["text"], "scenarios": [0]},
+                          {"universe": module, "why": "final dates of the implementation differ from the terminal state of Sched.tla",
+                           "expected": m["expected"], "got": m["got"]})
+        if mism[20:]:
+            run.notes["more_disagreements"] = len(mism) - 20
+        run.cov["exhaustive"] = True
